@@ -68,10 +68,14 @@ Canon(rel) == [hdr |-> rel.hdr,
 Exps == {1, 2, 3, 127, 128, 129}
 FacSet == {<<-1, k>> : k \in {0, 1, 2, 3, 128, 129}} \cup {<<p, k>> : p \in {2, 3, 5, LargeP}, k \in Exps}
 HdrVals == {0, 1, 127, 128, 16383, 16384, 2097151, 2097152, 2147483647}
-Hdrs == {[i \in 1..10 |-> v] : v \in HdrVals} \cup {<<0, 127, 128, 129, 16383, 16384, 1, 0, LargeP, 3>>}
+Hdrs == {[i \in 1..10 |-> v] : v \in HdrVals} \cup {<<0, 127, 128, 129, 16383, 16384, 1, 0, LargeP, 3>>}  \* = MixedHdr
 
-Init == r \in [hdr : Hdrs, fs : UNION {[1..n -> FacSet] : n \in 0..MaxF}]
-Next == UNCHANGED r
+\* the header and the factors are encoded independently (concatenation): every header with every factor list
+\* of length <= 1, and every factor list of length <= MaxF with the mixed header
+MixedHdr == <<0, 127, 128, 129, 16383, 16384, 1, 0, LargeP, 3>>
+Init == \/ r \in [hdr : Hdrs, fs : UNION {[1..n -> FacSet] : n \in 0..1}]
+        \/ r \in [hdr : {MixedHdr}, fs : UNION {[1..n -> FacSet] : n \in 2..MaxF}]
+Next == FALSE /\ UNCHANGED r
 
 RoundTrip == PackDefined(r) /\ Unpack(Pack(r)) = Canon(r)
 \* one byte per integer below 128, first byte of every integer is the only one below 0x80
